@@ -22,7 +22,7 @@
 From AV Require Import Base.Bytes Base.Outcome Base.Utf8 Hash.HashModel Spec.SpecOps Spec.Versions
   Xml.Lexer Xml.Parser Xml.Serializer Xml.LexerProofs Xml.Escape Xml.RoundTripValues Xml.RoundTripAttrs
   Xml.RoundTripLexer Xml.StrictValidDef Xml.ParserDepth Xml.RoundTripElem Xml.RoundTripFile Xml.TablesOk
-  Xml.RoundTripCanonValues Xml.RoundTripCanon Xml.Utf8Closure Xml.RoundTripCanonFinal Xml.RoundTripCanonb Xml.ParserExamples Xml.RoundTripExamples.
+  Xml.RoundTripCanonValues Xml.RoundTripCanon Xml.Utf8Closure Xml.RoundTripCanonFinal Xml.RoundTripCanonb Xml.RoundTripLexerComment Xml.ParserExamples Xml.RoundTripExamples.
 From AV Require Import Spec.SpecReal Hash.HashRealElement Hash.HashRealAttr Hash.HashRealEnum.
 Open Scope list_scope.
 Open Scope N_scope.
@@ -304,3 +304,11 @@ Theorem C01_rootcanonb_examples :
   rootcanon_of doc_ok = Some true /\ rootcanon_of doc_rich = Some true /\
   rootcanon_of doc_mixed_split = Some false /\ rootcanon_of doc_edge_blank = Some false /\ rootcanon_of doc_amp_pattern = Some false.
 Proof. exact (conj rootcanon_plain (conj rootcanon_rich (conj rootcanon_mixed_split (conj rootcanon_edge_blank rootcanon_amp_pattern)))). Qed.
+
+(* [U] every comment token the lexer returns is CommentOk: "--" inside a comment is accepted and stored (e.g. "a--b",
+   "a-"), and such comments are read back unchanged; a stored comment fails CommentsOk only if its bytes were not UTF-8
+   (the loader stores the lossy conversion) — the fourth clause of knownb *)
+Theorem C01_lexed_comments_ok :
+  forall (f : nat) (st : lstate) (line : N) (c : list N) (st' : lstate),
+  lex_next f st = Val (LOk line (EvComment c) st') -> CommentOk c.
+Proof. exact lex_comment_ok. Qed.
